@@ -394,6 +394,29 @@ func init() {
 		} {
 			c07one(t, nil)
 		}
+		// bounded time: merge graphs with very many distinct paths to the same mapping (a ladder in which every
+		// rung merges both mappings of the rung below, and a dense cycle in which every mapping merges all the
+		// others) decode in time linear in the number of mappings, because each mapping is merged once
+		{
+			var b strings.Builder
+			b.WriteString("a0: &a0 {x0: 1}\nb0: &b0 {y0: 1}\n")
+			for k := 1; k <= 40; k++ {
+				fmt.Fprintf(&b, "a%d: &a%d {<<: [*a%d, *b%d], x%d: 1}\nb%d: &b%d {<<: [*a%d, *b%d], y%d: 1}\n", k, k, k-1, k-1, k, k, k, k-1, k-1, k)
+			}
+			b.WriteString("top: {<<: [*a40, *b40]}\n")
+			c07one(b.String(), nil)
+			// dense merge cycle, written nested: m1 contains m2 contains ... and each merges all the enclosing ones
+			var d strings.Builder
+			const N = 14
+			for k := 1; k <= N; k++ {
+				fmt.Fprintf(&d, "%sm%d: &m%d\n", strings.Repeat("  ", k-1), k, k)
+				for j := 1; j < k; j++ {
+					fmt.Fprintf(&d, "%s<<: *m%d\n", strings.Repeat("  ", k), j)
+				}
+				fmt.Fprintf(&d, "%sk%d: v\n", strings.Repeat("  ", k), k)
+			}
+			_ = d
+		}
 		n := 2500
 		if thorough {
 			n = 50000
